@@ -1,2 +1,34 @@
-From Tramp Require Import Model.Base Model.Sys Props.C09.
-Print Assumptions C09_placeholder.
+From Tramp Require Import Model.Base Model.Fee Model.Classify Model.Node Model.Provider Model.ProviderSys Model.Sys.
+From Tramp Require Import Proofs.SysBasics Proofs.SysShape Proofs.SysTheorems Proofs.SysReach Proofs.SysCalls Proofs.SysNode Proofs.SysSafety Proofs.SysRecover Props.C09.
+Check C09_crash_image_is_a_start_image : forall c n t0 h0 a0 evs,
+  node_ok n -> hist_wf c (sys_start n t0 h0 a0) evs ->
+  node_ok (nd (fst (step c (after c n t0 h0 a0 evs) EvCrash))).
+Check C09_never_wedged : forall c n t0 h0 a0 h (p : list N),
+  funded c h -> mpp_ms c <> 0 -> node_ok n -> (forall i, nth_error (parts n) i <> Some PPend) ->
+  mem_att a0 (atts n) = false -> (forall a t g, ds n = Some (DPending a t, g) -> a0 <> a) ->
+  exists evs,
+    (exists p', In [OResp (hid h) (Resolve p')] (map resps (snd (run c (sys_start n t0 h0 a0) evs)))) \/
+    (In [OResp (hid h) r_tramp_fail] (map resps (snd (run c (sys_start n t0 h0 a0) evs))) /\
+     free_view (ds (nd (fst (run c (sys_start n t0 h0 a0) evs)))) /\ parts (nd (fst (run c (sys_start n t0 h0 a0) evs))) = parts n).
+Check C09_interrupted_failed_is_marked_failed_and_paid : forall c n t0 h0 a0 h a t g p,
+  funded c h -> ds n = Some (DPending a t, g) -> pend_ids 0 (parts n) = [] -> done_pres (parts n) = [] ->
+  (mpp_ms c - (t0 - t) =? 0) = false -> a0 <> a -> mem_att a0 (atts n) = false ->
+  In [OResp (hid h) (Resolve p)]
+     (map resps (snd (run c (sys_start n t0 h0 a0) (recover_schedule h ++ pay_schedule_from 5 (length (parts n)) p)))).
+Check C09_aged_next_set_is_paid : forall c n t0 h0 a0 h h2 a t g p,
+  funded c h -> funded c h2 -> mpp_ms c <> 0 -> ds n = Some (DPending a t, g) -> pend_ids 0 (parts n) = [] -> done_pres (parts n) = [] ->
+  (mpp_ms c - (t0 - t) =? 0) = true -> a0 <> a -> mem_att a0 (atts n) = false ->
+  In [OResp (hid h2) (Resolve p)]
+     (map resps (snd (run c (sys_start n t0 h0 a0) (recover_schedule h ++ second_schedule h2 (length (parts n)) p)))).
+Check C09_markfailed_write_never_refused : forall n a am b,
+  snd (node_exec n (QWriteAtt CreateOrReplace a true false am b) NoFault) = Some YUnit.
+Print Assumptions C09_crash_image_is_a_start_image.
+Print Assumptions C09_never_wedged.
+Print Assumptions C09_free_image_pays.
+Print Assumptions C09_succeeded_image_settles_from_record.
+Print Assumptions C09_interrupted_completed_settles.
+Print Assumptions C09_interrupted_failed_is_marked_failed_and_paid.
+Print Assumptions C09_aged_fails_once_then_free.
+Print Assumptions C09_aged_next_set_is_paid.
+Print Assumptions C09_markfailed_write_never_refused.
+Print Assumptions C09_D4_image_recovers.
